@@ -39,12 +39,19 @@ LAYOUTS = (("face", "Y", "X"), ("t", "face", "Y", "X"), ("face", "t", "Y", "X"),
 PERIODICITIES = ((False, False), (True, True), (True, False), (False, True))
 
 
-def make_grid(K, N, table, rule, fv, percall=False):
-    """percall: the Grid keeps its default (periodic) rule; the rule under test is given with the call"""
+def make_grid(K, N, table, rule, fv, percall=False, withz=False):
+    """percall: the Grid keeps its default (periodic) rule; the rule under test is given with the call.
+    withz: the grid has a third axis Z that no link mentions"""
     from xgcm import Grid
 
     lay = {"X": S.POS, "Y": S.POS}
-    ds = S.make_ds(lay, {"X": N, "Y": N}, extra={"face": K, "t": 2})
+    ns = {"X": N, "Y": N}
+    if withz:
+        lay["Z"] = ("center", "left")
+        ns["Z"] = 2
+        if isinstance(rule, dict):
+            rule, fv = dict(rule, Z="extend"), dict(fv, Z=0.0)
+    ds = S.make_ds(lay, ns, extra={"face": K, "t": 2})
     ds = ds.assign_coords(face=np.arange(K))
     with warnings.catch_warnings():
         warnings.simplefilter("ignore")
@@ -106,6 +113,10 @@ def run_case(rec, Kx, Ky, N, per, orient, axis, op, target, ri, li, seed, pre=No
     gf = {axis: fv, other: ofv + 20.0}
     layout = LAYOUTS[li]
     G = global_field(D.W, D.H, seed)
+    if (ri + li + len(op)) % 4 == 1:
+        # a missing value in the field (on a face edge): it is data like any other, also under the fill rule
+        G = G.copy()
+        G[0, D.W - 1] = np.nan
     F = D.cut(G)
     pads = target != "inner"
     linked_on_axis = any(table[f].get(axis, (None, None)) != (None, None) for f in table)
@@ -116,10 +127,22 @@ def run_case(rec, Kx, Ky, N, per, orient, axis, op, target, ri, li, seed, pre=No
         table = {f: dict(reversed(list(table[f].items()))) for f in reversed(list(table))}
     try:
         percall = (ri + li) % 2 == 1 or li == 3
-        g = make_grid(D.nf, N, table if any(table[f] for f in table) else None, gb, gf, percall=percall)
+        withz = (ri + li + len(op)) % 3 == 0
+        g = make_grid(D.nf, N, table if any(table[f] for f in table) else None, gb, gf, percall=percall, withz=withz)
     except Exception as e:
         rec.violation("constructor", "raise:" + exc_sig(e), case, "a Grid", f"{type(e).__name__}: {e}"[:200])
         return
+    if withz:
+        # an earlier operation along the unlinked axis, on a field that has it: the horizontal operation that follows
+        # (on a field without that dimension) is answered as if it came first
+        try:
+            with warnings.catch_warnings():
+                warnings.simplefilter("ignore")
+                g.diff(xr.DataArray(np.zeros((D.nf, 2, N, N)), dims=["face", "zc", "yc", "xc"]), "Z", boundary="extend")
+            rec.counters["earlier-op-along-unlinked-axis"] += 1
+        except Exception as e:
+            rec.violation("op", "raise-along-unlinked-axis:" + exc_sig(e), case, "array", f"{type(e).__name__}: {e}"[:200])
+            return
     da = xr.DataArray(F, dims=["face", "yc", "xc"])
     if "t" in layout:
         da = xr.concat([da, -da + 3], dim="t")
@@ -138,14 +161,14 @@ def run_case(rec, Kx, Ky, N, per, orient, axis, op, target, ri, li, seed, pre=No
     exp = expected(D, F, G, axis, op, target, rule, fv)
     canon = ["face", "yc" if axis == "X" else newdim, newdim if axis == "X" else "xc"]
     got = r.isel(t=0).transpose(*canon).values if "t" in layout else r.transpose(*canon).values
-    if got.shape != exp.shape or not np.array_equal(got, exp):
+    if got.shape != exp.shape or not np.array_equal(got, exp, equal_nan=True):
         rec.violation("op", f"values:{op}", case, exp, got)
         return
     if "t" in layout:
         F2 = -F + 3
         exp2 = expected(D, F2, -G + 3, axis, op, target, rule, fv)
         got2 = r.isel(t=1).transpose(*canon).values
-        if not np.array_equal(got2, exp2):
+        if not np.array_equal(got2, exp2, equal_nan=True):
             rec.violation("op", f"values-t1:{op}", case, exp2, got2)
 
 
